@@ -84,6 +84,9 @@ def mutants(seed, only=None):
         patch = os.path.join(d, "patch.diff")
         if os.path.exists(meta) and os.path.exists(patch):
             m = json.load(open(meta))
+            if m.get("known_gap"):
+                print("mutants: %-55s known gap, not run: %s" % ("seeded/" + os.path.basename(d), m.get("missed_reason", "")[:140]))
+                continue
             cases.append((patch, m.get("caught_by") or [m["property"]], "seeded/" + os.path.basename(d)))
     missed = 0
     for patch, props, name in cases:
